@@ -17,6 +17,7 @@
 import NV.Model.FS
 import NV.Lemmas.FS
 import NV.Gen.Resolv
+import NV.Driver.FS
 namespace NV.C19
 open NV.FS
 
@@ -457,5 +458,27 @@ example : (stepEv Variant.cur (pristine (.file (asc "nameserver 1.1.1.1\n")) .ab
 /-- in that window a new activation fails without touching anything (resolv.conf cannot be opened);
     only `deactivate` recovers — see `unreadable_is_noop` and `deactivate_restores` -/
 example : (setup Variant.cur ⟨.absent, .file [1], .absent, []⟩ []).2 = .errOpen := by decide
+
+
+/-! ### NetworkManager installed, its reload failing -/
+
+/-- **C19**: what deactivation does to the three resolv.conf names does not depend on
+NetworkManager: with its conf.d present and `systemctl reload` failing, `ResetDNS` leaves exactly
+the files plain `ResetDNS` leaves (resolv.conf is dealt with first; only the returned status and
+the drop-in differ). With `deactivate_restores` the original is back whatever NetworkManager does. -/
+theorem deactivate_independent_of_networkmanager (s : FS) (nm : Bool) :
+    (NV.resetNM s nm).1 = applyAll s (reset s).1 := by
+  unfold NV.resetNM
+  cases h : reset s with
+  | mk ps st =>
+    simp only []
+    cases st <;> cases hb : s.bak <;> simp
+
+/-- … and activation: the files are those of plain `SetDNS` -/
+theorem activate_independent_of_networkmanager (s : FS) (dns : Bytes) (nm : Bool) :
+    (NV.setupNM s dns nm).1 = applyAll s (setup Variant.cur s dns).1 := by
+  unfold NV.setupNM
+  cases h : setup Variant.cur s dns with
+  | mk ps st => cases st <;> simp
 
 end NV.C19
